@@ -235,15 +235,16 @@ def stmt (σ : St) : Stmt → St
   | .numFor _ v _ start stop step b =>
     let σ := eagerE (eagerE σ start) stop
     let σ := match step with | .some e => eagerE σ e | .none => σ
-    let σ := σ.open.local_ v
+    -- the loop variable is defined when the body is entered, after the closures of the control expressions
     let σ := σ.open
     let σ := descE (descE σ start) stop
     let σ := match step with | .some e => descE σ e | .none => σ
+    let σ := (σ.local_ v).open
     (block σ b).close.close
   | .genFor _ names es b =>
     let σ := eagerEs σ es
-    let σ := defineAll σ.open names
-    let σ := descEs σ es
+    let σ := descEs σ.open es
+    let σ := defineAll σ names
     (block σ b).close
   | .func _ name body =>
     match name.names with
